@@ -556,6 +556,14 @@ func main() {
 		}
 		defer func() { n.Close() }()
 		r.Add("states", 1)
+		if only == nil {
+			if broken := tieBreakRejections(r, cfg, path, n); broken {
+				n.Close()
+				if n, err = node.BuildPath(cfg, path); err != nil {
+					return
+				}
+			}
+		}
 		for k := 0; k < node.NumShapes; k++ {
 			if only != nil && only.Shape != k {
 				continue
@@ -679,4 +687,77 @@ func main() {
 	r.Set("max_chain_length", K)
 	r.Set("explanation", "states = menu paths built on a fresh real node; transitions = Validate+processValidated calls on mutants and on the valid successor; oracle = reference validity predicate (both directions) and full-state equality after every rejection")
 	r.Finish()
+}
+
+// tieBreakRejections: a competitor of the tip (same height and parent, the other slot's generator, forged in the
+// current slot while the tip was received outside its own slot) takes the tie-break path of process(). When the
+// competitor is invalid - statically or only when executed - the node must be exactly as before.
+func tieBreakRejections(r *vlib.Run, cfg node.Config, path []int, n *node.Node) bool {
+	if len(path) == 0 {
+		return false
+	}
+	aux, err := node.BuildPath(cfg, path[:len(path)-1])
+	if err != nil {
+		return false
+	}
+	defer aux.Close()
+	tip := n.Tip().Header
+	parentSlot := aux.Slot.GetSlotNumber(aux.Tip().Header.Timestamp)
+	sh := node.MenuShape(1, tip.Height, 7)
+	sh.SkipSlots = cfg.CurrentSlot - parentSlot - 1
+	comp, err := aux.Forge(sh)
+	if err != nil || bytes.Equal(comp.Header.GeneratorAddress, tip.GeneratorAddress) || comp.Header.MaxHeightPrevoted != tip.MaxHeightPrevoted {
+		r.Add("tie_break_competitor_not_constructible", 1)
+		return false
+	}
+	kinds := []struct {
+		name string
+		f    func(b *blockchain.Block)
+	}{
+		{"transaction-root", func(b *blockchain.Block) { b.Header.TransactionRoot = rnd32(0x51); aux.Reseal(b, false) }},
+		{"asset-root", func(b *blockchain.Block) { b.Header.AssetRoot = rnd32(0x52); aux.Reseal(b, false) }},
+		{"transaction-signature-missing", func(b *blockchain.Block) {
+			if len(b.Transactions) > 0 {
+				b.Transactions[0].Signatures = nil
+				b.Transactions[0].Init()
+				aux.Reseal(b, true)
+			} else {
+				b.Header.TransactionRoot = rnd32(0x53)
+				aux.Reseal(b, false)
+			}
+		}},
+		{"state-root", func(b *blockchain.Block) { b.Header.StateRoot = rnd32(0x54); aux.Reseal(b, false) }},
+		{"signature", func(b *blockchain.Block) { b.Header.Signature[9] ^= 4; b.Header.Init() }},
+	}
+	late := time.Unix(int64(tip.Timestamp)+int64(3*cfg.BlockTime), 0) // the tip was received outside its slot
+	for _, kd := range kinds {
+		b := node.CloneBlockLoose(comp)
+		kd.f(b)
+		n.Exec.VerifSetLastBlockReceived(&late)
+		n.DrainEvents()
+		s0 := take(n)
+		c := caseT{path, -1, "tie-break:" + kd.name, true}
+		var perr error
+		if p := vlib.Catch(func() { perr = n.Exec.VerifProcess(b, "peer-1") }); p != "" {
+			r.Violation("panic:tie-break:"+kd.name, "panic while processing an invalid tie-break competitor: "+p, c)
+			return true
+		}
+		r.Add("transitions", 1)
+		r.Add("tie_break_competitors_rejected", 1)
+		s1 := take(n)
+		ev := n.DrainEvents()
+		if s1.tip != s0.tip {
+			r.Violation("tie-break-invalid-competitor-changed-tip:"+kd.name, fmt.Sprintf("an invalid tie-break competitor (%s, err=%v) on path %v left the node on another tip", kd.name, perr, path), c)
+			return true
+		}
+		// the failed-at-execution cases delete and re-apply the tip (same state, delete/new events); the statically
+		// invalid ones must not touch anything
+		static := kd.name == "transaction-root" || kd.name == "asset-root" || kd.name == "transaction-signature-missing"
+		if s1 != s0 || (static && len(ev) > 0) {
+			r.Violation("rejected-block-changed-state:tie-break:"+kd.name, fmt.Sprintf("an invalid tie-break competitor (%s, err=%v) on path %v changed the node: db %s->%s heights %v->%v finalized %d->%d events %v", kd.name, perr, path, s0.dump, s1.dump, s0.h, s1.h, s0.fin, s1.fin, ev), c)
+			return true
+		}
+	}
+	n.Exec.VerifSetLastBlockReceived(nil)
+	return false
 }
